@@ -27,6 +27,16 @@ def arange(
     if dtype is None:
         dtype = nxp.arange(start, stop, step * num if num else step).dtype
 
+    dtype_ = nxp.empty((), dtype=dtype).dtype  # dtype may be given as a string
+    if num > 0 and nxp.isdtype(dtype_, "integral"):
+        # each block is generated separately, so values cannot wrap around as a whole
+        info = nxp.iinfo(dtype_)
+        last = start + (num - 1) * step
+        if min(start, last) < info.min or max(start, last) > info.max:
+            raise ValueError(
+                f"arange from {start} to {stop} is out of bounds for dtype {dtype}"
+            )
+
     chunks = normalize_chunks(chunks, shape=(num,), dtype=dtype)
     chunksize = chunks[0][0]
 
